@@ -1,5 +1,5 @@
 SPECIFICATION Spec
 CONSTANT Tier = "thorough"
 INVARIANTS LawEqSymmetric LawNeNegation LawNilAlwaysError LawFunctionsNeverEqual LawRelConsistent LawIntEqualsFloat
-  LawZeroDivision LawMixedPromotes LawPromotedIsFloat LawIntDivTruncates LawConcatLength LawSlice LawIndex LawTotal
+  LawZeroDivision LawMixedPromotes LawPromotedIsFloat LawIntDivTruncates LawConcatLength LawSlice LawIndex LawBigOrder LawTotal
 CHECK_DEADLOCK FALSE
